@@ -725,6 +725,36 @@ impl Model for V4 {
     }
 }
 
+/// history: {a, t}; FieldMadeOptional("t"); FieldMadeTransient("t") - the last clause of C14:
+/// a field that was made optional and later made transient must remain encodable
+#[derive(BinaryCodec)]
+#[evolution(FieldMadeOptional("t"), FieldMadeTransient("t"))]
+pub struct V6 {
+    pub a: u8,
+    #[transient(None)]
+    pub t: Option<u8>,
+}
+
+impl Model for V6 {
+    fn arb(sh: &mut Shape) -> Self {
+        V6 { a: u8::arb(sh), t: Model::arb(sh) }
+    }
+    fn enc(&self, b: &mut Buf) {
+        // the field is gone from the wire: both steps are recorded as "removed" with its name
+        b.u8(2);
+        hdr_chunk(b, 1);
+        hdr_removed(b, b"t");
+        hdr_removed(b, b"t");
+        self.a.enc(b);
+    }
+    fn dec(_r: &mut Rd) -> Option<Self> {
+        None
+    }
+    fn same(&self, o: &Self) -> bool {
+        self.a == o.a && o.t.is_none()
+    }
+}
+
 /// two added fields in two generations, written out of generation order in the declaration
 #[derive(BinaryCodec)]
 #[evolution(FieldAdded("x", 1u8), FieldAdded("y", 2u16))]
